@@ -270,6 +270,10 @@ class PyReader:
                 fns[s.name] = s
             elif isinstance(s, ast.Assign) and len(s.targets) == 1:
                 self.assign(s.targets[0], self.ev(s.value, env, fns), env, s)
+            elif isinstance(s, ast.Assign) and all(isinstance(t_, ast.Name) for t_ in s.targets):
+                v_ = self.ev(s.value, env, fns)  # a = b = value: evaluated once, bound left to right
+                for t_ in s.targets:
+                    self.assign(t_, v_, env, s)
             elif isinstance(s, ast.AnnAssign) and s.value is not None:
                 self.assign(s.target, self.ev(s.value, env, fns), env, s)
             elif isinstance(s, ast.AnnAssign):
